@@ -48,6 +48,14 @@ void harness(void)
   uint8_t *inb = malloc(mlen + 8), *outb = malloc(mlen); __CPROVER_assume(inb && outb);
 #endif
 #endif
+#ifdef TJV_NULLS          /* C06: a zero-length buffer may be passed as NULL */
+  if (adlen == 0) ad = 0;
+#if PROG == 1 || PROG == 3
+  if (mlen == 0) inb = 0;
+#else
+  if (mlen == 0) outb = 0;
+#endif
+#endif
   M.pc = 0; M.sub = 0; M.pos = 0; M.tag_lo = 0; M.tag_hi = 0;
   for (int i = 0; i < 4; i++) M.cur[i] = 0;
   for (int i = 0; i < KW; i++) M.kinv[i] = ~tjv_ld(k + 4 * i, 4);
